@@ -59,6 +59,7 @@ pub fn ideal_windows(n_in: u32, crop: Crop1, n_out: u32, f: F, adaptive: bool) -
             return None;
         }
         let mut alts = vec![];
+        let mut undefined = false;
         for mask in 0..(1u32 << amb_idx.len()) {
             let mut w: Vec<f64> = vals.iter().map(|v| v.0).collect();
             for (bit, &i) in amb_idx.iter().enumerate() {
@@ -67,16 +68,26 @@ pub fn ideal_windows(n_in: u32, crop: Crop1, n_out: u32, f: F, adaptive: bool) -
                 }
             }
             let sum: f64 = w.iter().sum();
-            if sum == 0.0 || !sum.is_finite() {
+            if !sum.is_finite() {
+                continue;
+            }
+            if sum == 0.0 {
+                // every contributing tap is ambiguous: under this reading of the discontinuity the
+                // sample is 0/0 — the ideal is undefined, anything is accepted for this sample
+                if !amb_idx.is_empty() {
+                    undefined = true;
+                }
                 continue;
             }
             for v in w.iter_mut() {
                 *v /= sum;
             }
-            // trim zero weights at both ends (purely cosmetic)
-            let first = w.iter().position(|v| *v != 0.0).unwrap_or(0);
-            let last = w.iter().rposition(|v| *v != 0.0).unwrap_or(0);
-            alts.push(Alt { start: (xs[0] as usize) + first, w: w[first..=last].to_vec() });
+            // not trimmed: taps whose ideal weight is exactly 0 at the edge of the support are
+            // ±1e-16 noise in any other evaluation order, and the tolerance must see their |x|
+            alts.push(Alt { start: xs[0] as usize, w });
+        }
+        if undefined {
+            alts.push(Alt { start: 0, w: vec![] });
         }
         if alts.is_empty() {
             return None;
@@ -115,6 +126,11 @@ pub fn pass_line(src: &[Iv], wins: &Wins, ck: CK, precision: u32) -> Vec<Iv> {
         let mut lo = f64::INFINITY;
         let mut hi = f64::NEG_INFINITY;
         for a in alts {
+            if a.w.is_empty() {
+                lo = f64::NEG_INFINITY;
+                hi = f64::INFINITY;
+                continue;
+            }
             let mut l = 0.0;
             let mut h = 0.0;
             let mut sax = 0.0;
